@@ -27,8 +27,15 @@ class SPEC:
             "records): a flow's first, second or third record comes from a template that lacks one or two of the elements the engine "
             "puts into a record (`omit=<names>`: flow type, times, end reason, tcpState, pod names, key fields, any counter), followed by "
             "dumps and expiry scans with and without reset - the aggregation may refuse such a record but must answer every "
-            "operation. Non-trivial = >= 2 records on one key.")
-    assumptions = ["the exporter contract of the property (per node: end times strictly increase, totals do not decrease, end > start) and "
+            "operation. Flow-key sessions (`agg key`, getFlowKeyFromRecord through the overlay hook VerifFlowKey against Model/FlowKey.keyLoop): "
+            "8..30 records that carry any subset of the seven key elements, drawn from a few five-tuples and their near misses (one component "
+            "changed, addresses or ports swapped, IPv4 addresses in the 4- and the 16-byte form, both address families on one side, values of no "
+            "legal length); Spec.C05.judgeKey demands of the implementation's answers: refused exactly when an element the key needs is missing, "
+            "and the same key as an EARLIER record of the session exactly when the two denote the same five-tuple. "
+            "Non-trivial = >= 2 records on one key.")
+    assumptions = ["net.IP.String() is injective on address classes (no bytes / a length other than 4 and 16 / an IPv4 address in either form / any "
+                   "other 16 bytes): modelled (Model/FlowKey.IPText), exercised by the harness which parses the key's texts back, not verified",
+                   "the exporter contract of the property (per node: end times strictly increase, totals do not decrease, end > start) and "
                    "8 x (octet total growth) < 2^64 (the wrap branch is the theorem throughput_wraps)",
                    "Antrea's configuration of statistics elements (its lists in the usual and in permuted orders); httpVals configured in the `http` "
                    "histories only, its values from the model's value language (empty, an object of plain decimal ids and alphanumeric texts without "
